@@ -135,7 +135,21 @@ def gen_base(seed, pool=False, sizes="full"):
     cfgerr = None
     if len(targets) >= 2 and not dupfocus and rng.random() < (0.25 if pool else 0.06):
         cfgerr = rng.choice(targets)
-        cfg["file_rules"] = [{cfgerr: {"rule": {"nosuchrule_001": {"disable": True}}}}]
+        bad = {cfgerr: {"rule": {"nosuchrule_001": {"disable": True}}}}
+        good = {cfgerr: {"rule": {"length_001": {"disable": True}}}}
+        # the invalid per-file section sits in file_rules or in (deprecated, still documented)
+        # file_list; the same file may have a valid section in the other list as well
+        r = rng.random()
+        if r < 0.5:
+            cfg["file_rules"] = [bad]
+        elif r < 0.65:
+            cfg["file_list"] = [bad]
+        elif r < 0.85:
+            cfg["file_list"] = [bad]
+            cfg["file_rules"] = [good]
+        else:
+            cfg["file_rules"] = [bad]
+            cfg["file_list"] = [good]
     if cfg:
         sandbox.append(workload.sb_entry("cfg.json", common.json_bytes(cfg)))
         argv += ["-c", "cfg.json"]
@@ -144,7 +158,7 @@ def gen_base(seed, pool=False, sizes="full"):
     if dupfocus:
         dup = targets[0]
         names.insert(1, dup if rng.random() < 0.6 else "./" + dup)
-    elif rng.random() < (0.12 if pool else 0.05):
+    elif "file_list" not in cfg and rng.random() < (0.12 if pool else 0.05):
         dup = rng.choice(targets)
         names.insert(rng.randrange(len(names) + 1), dup if rng.random() < 0.5 else "./" + dup)
     if rng.random() < 0.05:
@@ -221,6 +235,29 @@ def ref_desc(desc, sandbox=None):
     return d
 
 
+def _only_my_file_list_entry(d, name):
+    """A file_list entry also puts its file on the scan list: the solo reference of one target keeps
+    that target's entry only (otherwise the other files, and their errors, join the 'solo' run)."""
+    import json
+
+    a = d["argv"]
+    if "-c" not in a:
+        return
+    cname = a[a.index("-c") + 1]
+    for i, f in enumerate(d["sandbox"]):
+        if f["path"] == cname:
+            try:
+                cfg = json.loads(workload.sb_bytes(f).decode())
+            except Exception:
+                return
+            if "file_list" in cfg:
+                cfg["file_list"] = [e for e in cfg["file_list"] if (list(e.keys())[0] if isinstance(e, dict) else e) == name]
+                if not cfg["file_list"]:
+                    del cfg["file_list"]
+                d["sandbox"] = d["sandbox"][:i] + [workload.sb_entry(cname, common.json_bytes(cfg), f.get("mode", "644"))] + d["sandbox"][i + 1 :]
+            return
+
+
 def compute_refs(desc, env):
     """Returns None when the fault-free run of this workload is itself not usable (VSG dies on the
     input): such workloads are skipped and counted."""
@@ -246,6 +283,7 @@ def compute_refs(desc, env):
             d1 = copy.deepcopy(rd)
             h1, _ = _argv_targets(d1)
             d1["argv"] = h1 + ["-f", sp]
+            _only_my_file_list_entry(d1, sp)
             r1 = env.run(d1, keep_files=(t,))
             if r1["status"] not in ("exit",) or not any(rec[0] == "task-begin" for rec in r1["records"]):
                 env.cache[key] = None
@@ -279,11 +317,30 @@ def compute_refs(desc, env):
 # oracle O16
 
 
+def _has_bad_section(desc, t):
+    import json
+
+    a = desc["argv"]
+    if "-c" not in a:
+        return False
+    for f in desc["sandbox"]:
+        if f["path"] == a[a.index("-c") + 1]:
+            try:
+                cfg = json.loads(workload.sb_bytes(f).decode())
+            except Exception:
+                return False
+            for sect in ("file_rules", "file_list"):
+                for e in cfg.get(sect) or []:
+                    if isinstance(e, dict) and t in e and any(str(u).startswith("nosuchrule") for u in (e[t] or {}).get("rule", {})):
+                        return True
+    return False
+
+
 def evaluate(desc, refs, res):
     """Returns a list of violation dicts (class, target, where, observed)."""
     V = []
     seen = set()
-    tg = refs["targets"]
+    tg = dict(refs["targets"])
     backup = "--backup" in desc["argv"] or "-b" in desc["argv"]
     head, names = _argv_targets(desc)
     has_dup = len({_norm(n) for n in names}) != len(names)
@@ -294,6 +351,17 @@ def evaluate(desc, refs, res):
             return
         seen.add((cls, t))
         V.append({"class": cls, "target": t, "where": list(where) if isinstance(where, tuple) else where, "observed": observed})
+
+    # rejected by construction, whatever the reference run of this tree did with the file: an
+    # unparseable input, or a file whose per-file configuration section names a rule that does not
+    # exist (every spelling on the command line equal to the section's key)
+    meta = desc.get("meta") or {}
+    for t, ent in tg.items():
+        byc = any(f.get("path") == t and "unparseable" in (f.get("tags") or []) for f in meta.get("files") or [])
+        if meta.get("cfgerr") == t and all(n == t for n in names if _norm(n) == t) and _has_bad_section(desc, t):
+            byc = True
+        if byc and not ent["rejected"]:
+            ent = tg[t] = dict(ent, rejected=True, rejected_by_construction_only=True)
 
     def check_state(label, state):
         for t, ent in tg.items():
